@@ -122,6 +122,9 @@ class RetryFuture(_Future):
         super(RetryFuture, self).__init__()
         self.delegate_future = None
         self._executor = executor
+        # Set when cancel() was requested while no job existed for this future
+        # (i.e. while it was being handed over to the delegate executor).
+        self._stop_retry = False
         self.add_done_callback(self._clear_executor)
 
     def running(self):
@@ -329,6 +332,9 @@ class RetryExecutor(CanCustomizeBind, Executor):
                     job.args,
                     job.kwargs,
                 )
+                # cancel() may have been called during the hand-over (by the
+                # callable itself, if the delegate runs it synchronously)
+                new_job.stop_retry = job.future._stop_retry
                 self._append_job(new_job)
                 self._log.debug("Submitted: %s", new_job)
 
@@ -398,8 +404,10 @@ class RetryExecutor(CanCustomizeBind, Executor):
             # handed over to the delegate executor (possibly further up the
             # stack of this very thread, if the delegate runs callables
             # synchronously), or the submit thread is just about to resolve
-            # it. Either way, it's too late to cancel.
+            # it. Either way, it's too late to cancel - but the request to
+            # cancel still means that we don't want to retry any more.
             self._log.debug("No job to cancel for %s", future)
+            future._stop_retry = True
             return False
 
         self._log.debug("Try cancel delegate: %s", found_job)
